@@ -341,7 +341,9 @@ class C05(Prop):
              b"@slot", b"@component", b"@insert", b"@reserve", b"@use", b"@dump", b"@i", b"@en", b"@els", b"@eac", b"@brea",
              b"@compon", b"{{--", b"--}}", b"\\{{", b"\\@if", b"\\@end", b"\\@each", b"{{ 1 }}", b"{{ 42 }}", b"}}", b"{", b"}",
              b"\\", b"\\\\", b"-", b"--", b"<p>", b"text", b"\n", b"\r\n", b"\xc3\xa9", b" ", b"@", b"@@", b"e", b"{{--x--}}",
-             b"{{-- @if(x) {{ y }} --}}", b"{{---}}", b"{{-- - --}}", b"{{--}}"]
+             b"{{-- @if(x) {{ y }} --}}", b"{{---}}", b"{{-- - --}}", b"{{--}}",
+             # bytes that are not valid UTF-8 where they stand pass through like any other byte
+             b"\xe9", b"\xc3", b"\xa9", b"\x80", b"\xff", b"\xe2\x82", b"\xf0\x9f", b"caf\xe9", b"(", b")", b"(b)"]
 
     def generate(self, rng, tier):
         srcs = []
@@ -379,6 +381,20 @@ class C05(Prop):
                         ops = [op_new("tpl", ".tw"), op_string("pg"), op_evalstr(page.replace("@component('~c', {a: 1})", "[C]").replace("@component('~c')", "[C]"))]
                         lines.append(tree_case("C05:t%d" % k, files, ops, ["ok:0", "eq:1:2", "nopanic"]))
                         k += 1
+        # text directly before / after whole directive constructs, with the output known by construction
+        CONS = [(b"@if(true)a@end", b"a"), (b"@if(false)a@else@end", b""), (b"@if(false)a@else(b)@end", b"(b)"),
+                (b"@each(i in [1])x@end", b"x"), (b"@if(true)@if(true)q@end@end", b"q"), (b"@each(i in [1, 2])@continue@end", b""),
+                (b"@each(i in [1, 2])y@break@end", b"y"), (b"{{ 1 }}", b"1"), (b"@for(i = 0; i < 1; i++)z@end", b"z")]
+        SEGS = [b"", b"(b)", b"(1, 2);", b" (b)", b"[x]", b"\xe9", b"\xc3", b"\xe2\x82", b"}}", b"-", b"--}}", b"e", b" if", b")", b"(", b"\n(",
+                b"caf\xe9 ", b"<p>", b"\r\n", b"x", b"{", b"}"]
+        for a in SEGS:
+            for (c, co) in CONS:
+                for b in SEGS:
+                    if a.endswith(b"{") and c.startswith(b"{{"):
+                        continue      # "{{{ 1 }}" opens a block holding an object literal: other syntax, not text + block
+                    src = a + c + b
+                    lines.append(tree_case("C05:s%d" % k, [], [op_evalstr(src)], ["out:0:" + hx(a + co + b), "nopanic"]))
+                    k += 1
         return lines, {"exhaustive": False, "distribution": distribution(srcs),
                        "exhaustive_part": "all strings over 14 symbols up to length %d, alone and spliced" % maxlen}
 
@@ -553,6 +569,30 @@ class C08(Prop):
             cases.append(("C08", rng.choice(["parse", "parse", "parse", "render", "lex"]),
                           b"".join(rng.choice(LEXEMES_NUL) for _ in range(k))))
         lines = ["%s:%d\t%s\t%s" % (p, i, k, hx(s)) for i, (p, k, s) in enumerate(cases)]
+        # the same for the content of files in the template directory: loading always returns, also when component
+        # files use themselves or each other (directly, in a cycle, behind a condition that is never true)
+        trees = [
+            [("tpl/index.tw", "<nav>@component('menu', { items: items })</nav>"),
+             ("tpl/menu.tw", "<ul>@each(item in items)<li>{{ item }}@if(false)@component('menu', { items: items })@end</li>@end</ul>")],
+            [("tpl/index.tw", "@component('~comment')"), ("tpl/components/comment.tw", "<c>@component('~replies')</c>"),
+             ("tpl/components/replies.tw", "<r>@if(false)@component('~comment')@end</r>")],
+            [("tpl/index.tw", "@component('~a')"), ("tpl/components/a.tw", "[a @component('~b')]"), ("tpl/components/b.tw", "[b]")],
+            [("tpl/index.tw", "@component('~a')@slot x@end@end"), ("tpl/components/a.tw", "[a @slot @component('~a')@slot y@end@end]")],
+            [("tpl/index.tw", "@use('~l')@insert('t')x@end"), ("tpl/layouts/l.tw", "@use('~l')<l>@reserve('t')</l>")],
+            [("tpl/index.tw", "@use('~l')@insert('t')x@end"), ("tpl/layouts/l.tw", "<l>@reserve('t')@component('~c')</l>"),
+             ("tpl/components/c.tw", "@use('~l')c")],
+        ]
+        for i, fs in enumerate(trees):
+            files = [(n, "file", c) for n, c in fs]
+            lines.append(tree_case("C08:t%d" % i, files, [op_new("tpl", ".tw"), op_string("index", "((%s (slice (str 61) (str 62))))" % hx("items"))],
+                                   ["nopanic"]))
+        # every prefix of a valid file as the content of a file of the directory
+        for i in range({"quick": 60, "thorough": 600, "search": 120}[tier]):
+            atoms = tg.template()
+            cut = rng.randrange(1, len(atoms) + 1)
+            src = "".join(a for a, _ in atoms[:cut])
+            files = [("tpl/index.tw", "file", "ok"), ("tpl/part.tw", "file", src)]
+            lines.append(tree_case("C08:p%d" % i, files, [op_new("tpl", ".tw")], ["nopanic"]))
         dist = distribution([s for _, _, s in cases])
         dist["must_be_rejected"] = sum(1 for p, _, _ in cases if p == "C08e")
         return lines, {"exhaustive": False, "distribution": dist,
@@ -775,6 +815,21 @@ class C10(Prop):
             for j, (kind, tree) in enumerate(picks):
                 seps = ",".join(str(rng.randrange(8)) for _ in range(12))
                 lines.append("\t".join(["C10:%d_%d" % (i, j), kind, hx(tree), "-", hx(seps), "-"]))
+        # raw() gives a NEW unescaped value: the stored literal is still escaped wherever it is used afterwards
+        special = [c for c in contents if any(x in c for x in "<>&") and len(c) <= 12]
+        rng.shuffle(special)
+        for i, c in enumerate(special[: {"quick": 300, "thorough": 3000, "search": 600}[tier]]):
+            lit = "(str %s %s)" % (hx(c), rng.choice(["0", "1"]))
+            shapes = [
+                B(["(assign x %s)" % lit, "(print (call (var x) raw))", T("|"), "(print (var x))", T("|"), "(print (call (var x) raw))", T("|"),
+                   "(print (bin add (var x) (var x)))"]),
+                B(["(assign s %s)" % lit, "(for (init i (int 0)) (bin lt (var i) (int 2)) (inc i) %s none)" % B(["(print (call (var s) raw))", T(",")]),
+                   "(print (var s))"]),
+                B(["(assign a (arr %s))" % lit, "(print (call (idx (var a) (int 0)) raw))", T("|"), "(print (idx (var a) (int 0)))", T("|"),
+                   "(print (var a))"]),
+                B(["(each v (arr %s %s) %s none)" % (lit, lit, B(["(print (call (var v) raw))", T(":"), "(print (var v))", T(";")]))]),
+            ]
+            lines.append("C10:r%d\txtpl\t%s\t-" % (i, hx(shapes[i % len(shapes)])))
         return lines, {"exhaustive": False, "distribution": distribution([c.encode() for c in contents]),
                        "exhaustive_part": "all contents over 10 symbols up to length %d" % maxlen}
 
@@ -805,11 +860,20 @@ CONDS = [
     ("(var da)", True), ("(var dea)", True), ("(var dobj)", True), ("(var ds)", True), ("(var dnegz)", False),
     ("(bin eq (var di) (int 3))", True), ("(bin lt (var di) (int 3))", False), ("(var zz)", None),
     ("(bin add (int 1) (str %s 1))" % hx("s"), None), ("(bin div (int 1) (int 0))", None), ("(prop (var di) k)", None),
+    # every non-zero float is truthy, however small: tiny data values, a tiny literal, an arithmetic residue, a denormal
+    ("(var dtiny)", True), ("(var dntiny)", True), ("(var ddenorm)", True), ("(float 1 12)", True),
+    ("(bin sub (bin add (float 1 1) (float 2 1)) (float 3 1))", True), ("(bin sub (float 5 1) (float 5 1))", False),
 ]
 COND_DATA = {
     "dt": "(bool 1)", "df": "(bool 0)", "dz": "(int 0)", "dfz": "(f64 %s)" % f64bits(0.0), "de": "(str -)", "dn": "(nil)",
     "da": "(slice (int 1))", "dea": "(slice)", "dobj": "(map)", "ds": "(str %s)" % hx("x"), "di": "(int 3)",
-    "dnegz": "(f64 %s)" % f64bits(-0.0),
+    "dnegz": "(f64 %s)" % f64bits(-0.0), "dtiny": "(f64 %s)" % f64bits(1e-12), "dntiny": "(f64 %s)" % f64bits(-2.5e-10),
+    "ddenorm": "(f64 %s)" % f64bits(5e-324),
+    # floats at which adding one half is not exact
+    "fhm": "(f64 %s)" % f64bits(0.49999999999999994), "fnhm": "(f64 %s)" % f64bits(-0.49999999999999994),
+    "fo52": "(f64 %s)" % f64bits(4503599627370497.0), "fno52": "(f64 %s)" % f64bits(-4503599627370497.0),
+    "fo53": "(f64 %s)" % f64bits(9007199254740991.0), "fe52": "(f64 %s)" % f64bits(4503599627370498.0),
+    "fh3": "(f64 %s)" % f64bits(2251799813685248.5), "f25": "(f64 %s)" % f64bits(2.5), "fn25": "(f64 %s)" % f64bits(-2.5),
     "arr3": "(slice (int 10) (int 20) (int 30))", "strs": "(slice (str 61) (str 62))", "empty": "(slice)",
     "users": "(slice (struct (Name (str 616e6e)) (Age (int 30))) (struct (Name (str 626f62)) (Age (int 7))))",
     "nested": "(slice (slice (int 1) (int 2)) (slice) (slice (int 3)))", "px": "(int 5)", "ps": "(str %s)" % hx("pre"),
@@ -895,6 +959,31 @@ class C02(Prop):
                 body = [T("("), "(print (var v))", "(%s %s)" % (kind, c[0]), T(")")]
                 tpls.append(B(["(each v (var arr3) %s none)" % B(body), T("$")]))
         lines = ["C02:%d\txtpl\t%s\t%s" % (i, hx(t), data) for i, t in enumerate(tpls)]
+        # raw sources: blanks and line breaks between a directive keyword and its "(" change nothing
+        RAW = [("true", True), ("false", False), ("0", False), ("1", True), ('""', False), ('"x"', True), ("nil", False),
+               ("dz", False), ("dt", True), ("dtiny", True), ("0.0", False)]
+        k = 0
+        for rep in range({"quick": 150, "thorough": 1500, "search": 300}[tier]):
+            ws = [rng.choice(["", " ", "\n", "\t", "  ", " \n "]) for _ in range(4)]
+            a, b = rng.choice(RAW), rng.choice(RAW)
+            shape = rep % 5
+            if shape == 0:
+                src = "<@if%s(%s)A@elseif%s(%s)B@else C@end>" % (ws[0], a[0], ws[1], b[0])
+                want = "<" + ("A" if a[1] else "B" if b[1] else " C") + ">"
+            elif shape == 1:
+                src = "<@if%s(%s)A@elseif%s(%s)B@end>" % (ws[0], a[0], ws[1], b[0])
+                want = "<" + ("A" if a[1] else "B" if b[1] else "") + ">"
+            elif shape == 2:
+                src = "@each%s(n in [1, 2, 3])@continueIf%s(n == 2){{ n }}@end|@each(n in [1, 2, 3])@breakIf%s(n == 3){{ n }}@end" % (ws[0], ws[1], ws[2])
+                want = "13|12"
+            elif shape == 3:
+                src = "@for%s(i = 0; i < 3; i++)@breakIf%s(%s){{ i }}@end" % (ws[0], ws[1], a[0])
+                want = "" if a[1] else "012"
+            else:
+                src = "@each(v in arr3)[@if%s(v == 20)@continue@elseif%s(%s)x@end{{ v }}]@end" % (ws[0], ws[1], a[0])
+                want = ("[x10][" + "[x30]") if a[1] else "[10][[30]"
+            lines.append(tree_case("C02:w%d" % k, [], [op_evalstr(src, cond_data())], ["out:0:" + (hx(want) if want else "-"), "nopanic"]))
+            k += 1
         dist = collections.Counter()
         for t in tpls:
             dist["elifs=%d" % min(3, t.count("(elifs (") and t.split("(elifs ")[1].count("(b") or 0)] += 1
@@ -1079,11 +1168,18 @@ class C04(Prop):
             return "(if (bool 0) %s (elifs ((bool 1) %s)) %s)" % (B(self.seq(rng, names, 1)), B(inner), B(self.seq(rng, names, 1)))
         if k < 0.6:
             return "(if (bool 0) %s (elifs) %s)" % (B(self.seq(rng, names, 1)), B(inner))
-        if k < 0.82:
+        if k < 0.74:
             lv = rng.choice(["x", "y", "e", "loop"] if rng.random() < 0.3 else ["e", "x"])
             arr = rng.choice(["(arr (int 1) (int 2))", "(arr (str %s 1))" % hx("q"), "(arr (float 5 1))", "(var arr3)", "(var strs)"])
             return "(each %s %s %s none)" % (lv, arr, B(inner + ["(print (var %s))" % lv]))
+        if k < 0.82:
+            # nothing to loop over: the @else body is a block of its own, like any other
+            lv = rng.choice(["e", "x", "y"])
+            arr = rng.choice(["(arr)", "(var empty)"])
+            return "(each %s %s %s %s)" % (lv, arr, B(self.seq(rng, names, 1)), B(inner))
         var = rng.choice(["i", "x", "y"])
+        if k < 0.88:
+            return "(for (init %s (int 5)) (bin lt (var %s) (int 2)) (inc %s) %s %s)" % (var, var, var, B(self.seq(rng, names, 1)), B(inner))
         return "(for (init %s (int 0)) (bin lt (var %s) (int 2)) (inc %s) %s none)" % (var, var, var, B(inner))
 
     def generate(self, rng, tier):
@@ -1114,6 +1210,23 @@ class C04(Prop):
                     for pre in (None, a, b):
                         d = "((%s %s))" % (hx("x"), self.DATAV[pre]) if pre else "-"
                         cases.append((t, d))
+        # a re-binding of the SAME type in a nested block shadows the outer / data binding for everything nested deeper,
+        # and only there
+        for a in types:
+            v0, v1 = self.TYPES[a][0], self.TYPES[a][-1]
+            deep = "(if (bool 1) %s (elifs) none)" % B(["(print (var x))"])
+            deep2 = "(each q (arr (int 1) (int 2)) %s none)" % B(["(print (var x))"])
+            shapes = [
+                B(["(assign x %s)" % v0, "(if (bool 1) %s (elifs) none)" % B(["(assign x %s)" % v1, deep, "(print (var x))"]), T("|"), "(print (var x))"]),
+                B(["(assign x %s)" % v0, "(if (bool 1) %s (elifs) none)" % B(["(assign x %s)" % v1, deep2]), T("|"), "(print (var x))"]),
+                B(["(assign x %s)" % v0, "(each x (arr %s %s) %s none)" % (v1, v1, B([deep, T(";")])), T("|"), "(print (var x))"]),
+                B(["(assign x %s)" % v0, "(for (init i (int 0)) (bin lt (var i) (int 2)) (inc i) %s none)" % B(["(assign x %s)" % v1, deep]), T("|"), "(print (var x))"]),
+            ]
+            for t in shapes:
+                cases.append((t, "-"))
+                cases.append((t, "((%s %s))" % (hx("x"), self.DATAV[a])))
+                # the outer binding only comes from the data map
+                cases.append((t.replace("(assign x %s)" % v0, "", 1) if v0 != v1 else t, "((%s %s))" % (hx("x"), self.DATAV[a])))
         # the reserved name
         for t in [B(["(assign loop (int 1))"]), B(["(each loop (arr (int 1)) %s none)" % B([T("x")])]),
                   B(["(each v (arr (int 1)) %s none)" % B(["(assign loop (int 2))"])]), B([T("ok")])]:
@@ -1153,6 +1266,10 @@ def opx(ops):
 
 def op_new(d="tpl", e=".tw", page="", debug=0):
     return "(new %s %s %s %d)" % (hx(d), hx(e), hx(page), debug)
+
+
+def op_configure(d="tpl", e=".tw", page="", debug=0):
+    return "(configure %s %s %s %d)" % (hx(d), hx(e), hx(page), debug)
 
 
 def op_string(name, data=None):
@@ -1568,6 +1685,15 @@ class C14(Prop):
             elif k == 5:
                 files = [("tpl/%s.tw" % nm, "file", "{{ ) }}" if j < 2 else "fine") for j, nm in enumerate(rng.sample(self.KEYS, 4))]
                 ops = [op_new("tpl", ".tw")] * reps
+            elif k == 6 and i % 2 == 1:
+                a = "<ul>@each(n in [7, 8, 9])<li>{{ n }}</li>@end</ul>@for(i = 0; i < 2; i++)[{{ i }}]@end|{{ %s }}" % self.obj_lit(rng, nk)
+                b = rng.choice(["@each(n in [1, 2, \"x\"])<b>{{ n }}</b>@end", "@for(i = 0; i < 3; i++)x{{ 1 / (1 - i) }}@end",
+                                "@each(n in [1, 2])[{{ n }}@each(m in [1, 2])({{ m }}{{ zz }})@end]@end"])
+                files, ops = [], [op_evalstr(a), op_evalstr(b)] * (reps // 2)
+                cons = ["eq:%d:%d" % (j, j + 2) for j in range(len(ops) - 2)] + ["nopanic"]
+                for p in range(procs):
+                    lines.append(tree_case("C14:%d_p%d" % (i, p), files, ops, cons))
+                continue
             else:
                 obj = self.obj_lit(rng, nk)
                 files = [("tpl/pg.tw", "file", "@component('~c', %s)" % self.obj_lit(rng, nk, failing=2) + "|{{ %s }}" % obj),
@@ -1618,7 +1744,9 @@ class C16(Prop):
              # a render without data that assigns at top level must leave nothing behind for the next one
              ("tpl/setter.tw", "file", "{{ title = \"Hello\" }}<h1>{{ title }}</h1>"),
              ("tpl/reader.tw", "file", "<p>{{ title }}</p>"),
-             ("tpl/shuf.tw", "file", "{{ items.shuffle().len() }}{{ [1, 2, 3, 4, 5, 6].shuffle().len() }}")]
+             ("tpl/shuf.tw", "file", "{{ items.shuffle().len() }}{{ [1, 2, 3, 4, 5, 6].shuffle().len() }}"),
+             # fails inside a loop after earlier passes have produced output
+             ("tpl/badloop.tw", "file", "<ol>@each(i in items)<li>{{ i }}</li>{{ 1 / (2 - i) }}@end</ol>@for(j = 0; j < 3; j++)[{{ j }}{{ 1 % (1 - j) }}]@end")]
 
     def opset(self, shuffle=False):
         extra = [op_string("shuf", TREE_DATA), op_evalstr("{{ [1, 2, 3, 4].shuffle().len() }}")] if shuffle else []
@@ -1627,7 +1755,8 @@ class C16(Prop):
                 op_evalstr("{{ n * 2 }}", TREE_DATA), op_evalstr("{{ zz }}"), op_evalfile("tpl/bad.tw", TREE_DATA),
                 op_evalfile("tpl/components/card.tw", "((%s (int 1)))" % hx("v")),
                 op_string("setter"), op_string("reader"), op_response("reader"),
-                op_evalstr("{{ cnt = \"three\" }}{{ cnt }}"), op_evalstr("{{ cnt = 3 }}{{ cnt }}{{ title = 1 }}")]
+                op_evalstr("{{ cnt = \"three\" }}{{ cnt }}"), op_evalstr("{{ cnt = 3 }}{{ cnt }}{{ title = 1 }}"),
+                op_string("badloop", TREE_DATA), op_evalstr("@each(n in [1, 2, \"x\"])<b>{{ n }}</b>@end")]
 
     def generate(self, rng, tier):
         ops = self.opset()
@@ -1805,6 +1934,25 @@ class C17(Prop):
                                 cons += ["bodymsg:%d" % r]
                         lines.append(tree_case("C17:%d" % i, files, ops, cons))
                         i += 1
+        # the error page written is the one configured NOW: several failing responses of one loaded template with the
+        # configuration changed in between (textwire.Configure), and an error page whose content differs per call
+        for rep in range({"quick": 12, "thorough": 120, "search": 24}[tier]):
+            files = self.page(rng, rng.randrange(0, 7), self.SHAPES[rep % len(self.SHAPES)]) + [
+                ("tpl/erra.tw", "file", "<h1>Error page A</h1>"), ("tpl/errb.tw", "file", "<h1>Error page B</h1>"),
+                ("tpl/errbroken.tw", "file", "<h1>Error page C {{ undefinedincustom }}</h1>")]
+            seq = [rng.choice(["erra", "errb", "errbroken", "nosuchpage"]) for _ in range(rng.choice([2, 3, 4]))]
+            ops = [op_new("tpl", ".tw", seq[0], 0), op_response("pg", TREE_DATA)]
+            cons = ["nopanic", "ok:0"]
+            for pg in seq[1:]:
+                ops += [op_configure("tpl", ".tw", pg, 0), op_response("pg", TREE_DATA)]
+            for j, pg in enumerate(seq):
+                r = 1 + 2 * j
+                cons += ["err:%d" % r, "nobodymsg:%d" % r, "nobody:%d:" % r + hx(self.MARK), "nobody:%d:" % r + hx("secret")]
+                for nm, txt in (("erra", "Error page A"), ("errb", "Error page B")):
+                    cons += [("body:%d:" if pg == nm else "nobody:%d:") % r + hx(txt)]
+                cons += ["nobody:%d:" % r + hx("Error page C")]
+            lines.append(tree_case("C17:c%d" % i, files, ops, cons))
+            i += 1
         return lines, {"exhaustive": True, "distribution": {"combinations": 24, "repetitions": reps, "page_shapes": len(set(self.SHAPES)),
                                                              "with_reconfiguration": sum(1 for l in lines if l.count("286e657720") > 1)}}
 
@@ -2009,6 +2157,22 @@ class C20(Prop):
                    op_new("tpl", ".tw"), op_evalstr("{{ 'r'.ec(%s) }}" % a)]
             cons = ["nopanic", "ok:0", "ok:1", "ok:2", "ok:3", "ok:4", "ok:5", "ok:6", "ok:7", "eq:4:9"]
             lines.append(tree_case("C20:c%d" % i, [("tpl/p.tw", "file", "p")], ops, cons))
+        # a function that changes the slice it received in place and returns it: the result counts, whatever its identity
+        for i, recv in enumerate(["[1, 3, 2]", "[5]", "[]", "av", "['a', [1, 2], {k: 1}]", "[1, 2].append(3)", "[1, 2, 3, 4].slice(1)"]):
+            ops = ["(reg arr %s revip)" % hx("rv"), "(reg arr %s id)" % hx("same"),
+                   op_evalstr("{{ %s.rv() }}" % recv, self.DATA), op_evalstr("{{ %s.reverse() }}" % recv, self.DATA),
+                   op_evalstr("{{ x = %s }}{{ x.rv() }}|{{ x }}|{{ x.same() }}|{{ x.rv().rv() }}" % recv, self.DATA),
+                   op_evalstr("{{ x = %s }}{{ x.reverse() }}|{{ x }}|{{ x }}|{{ x }}" % recv, self.DATA)]
+            lines.append(tree_case("C20:m%d" % i, [("tpl/p.tw", "file", "p")], ops,
+                                   ["nopanic", "ok:0", "ok:1", "ok:2", "ok:3", "eq:2:3", "eq:4:5"]))
+        # custom functions are available wherever a template is evaluated: in component files, slot bodies, layouts, inserts
+        files = [("tpl/page.tw", "file", "{{ name.sh() }}|@component('~card', {title: name})@slot {{ name.sh() }}@end@end"),
+                 ("tpl/components/card.tw", "file", "<b>{{ title.sh() }}</b>@slot"),
+                 ("tpl/lp.tw", "file", "@use('~l')@insert('t', name.sh())@insert('b'){{ name.sh() }}@end"),
+                 ("tpl/layouts/l.tw", "file", "<t>@reserve('t')</t>@reserve('b'){{ name.sh() }}")]
+        d = "((%s (str %s)))" % (hx("name"), hx("ann"))
+        ops = ["(reg str %s const)" % hx("sh"), op_new("tpl", ".tw"), op_string("page", d), op_string("lp", d)]
+        lines.append(tree_case("C20:f0", files, ops, ["nopanic", "ok:0", "ok:1", "out:2:" + hx("K|<b>K</b> K"), "out:3:" + hx("<t>K</t>KK")]))
         return lines, {"exhaustive": False, "distribution": {"registration_sequences": len(seqs), "conversion_cases": len(argsets)},
                        "exhaustive_part": "all registration sequences of length <= %d over %d (type, name, fn) triples" % (maxlen, len(regs))}
 
@@ -2100,6 +2264,28 @@ class C11(Prop):
             for fn, x in [("append", "(int 9)"), ("prepend", "(int 9)"), ("contains", "(int 2)"), ("contains", "(arr (int 1))"),
                           ("contains", "(obj (k (int 1)))"), ("contains", "(nil)"), ("contains", self.sval("a")), ("join", self.sval("-"))]:
                 cases.append(("xexpr", "(call %s %s %s)" % (a, fn, x)))
+        # contains is structural equality: an object element equals only an object with exactly the same pairs
+        anna = "(obj (name %s) (age (int 21)))" % self.sval("anna")
+        for a, x in [("(arr %s (int 3))" % anna, "(obj (name %s))" % self.sval("anna")), ("(arr %s (int 3))" % anna, anna),
+                     ("(arr %s)" % anna, "(obj (age (int 21)) (name %s))" % self.sval("anna")), ("(arr %s)" % anna, "(obj (name %s) (age (int 22)))" % self.sval("anna")),
+                     ("(arr (obj (id (int 1))))", "(obj)"), ("(arr (obj))", "(obj)"), ("(arr (obj))", "(obj (id (int 1)))"),
+                     ("(arr (arr (obj (id (int 1)) (admin (bool 1)))))", "(arr (obj (id (int 1))))"),
+                     ("(arr (arr (obj (id (int 1)) (admin (bool 1)))))", "(arr (obj (id (int 1)) (admin (bool 1))))"),
+                     ("(arr (obj (a (obj (b (int 1)) (c (int 2))))))", "(obj (a (obj (b (int 1)))))"),
+                     ("(var users)", "(obj (name %s))" % self.sval("bob")), ("(arr (arr (int 1) (int 2)))", "(arr (int 1))"),
+                     ("(arr (arr (int 1) (int 2)))", "(arr (int 1) (int 2))"), ("(arr (int 1) (float 10 1))", "(float 10 1)")]:
+            cases.append(("xexpr", "(call %s contains %s)" % (a, x)))
+        # round at the values where adding one half is not exact
+        for m, k in [(49999999999999994, 17), (5, 1), (50000000000000006, 17), (45035996273704970, 1), (45035996273704990, 1),
+                     (90071992547409910, 1), (90071992547409890, 1), (22517998136852485, 1), (15, 1), (25, 1), (44999999999999996, 16)]:
+            for neg in (False, True):
+                r = "(float %d %d)" % (m, k)
+                r = "(neg %s)" % r if neg else r
+                for fn in ["round", "floor", "ceil", "int"]:
+                    cases.append(("xexpr", "(call %s %s)" % (r, fn)))
+        for v in ["fhm", "fnhm", "fo52", "fno52", "fo53", "fe52", "fh3", "f25", "fn25", "dtiny", "dntiny"]:
+            for fn in ["round", "floor", "ceil", "int", "abs"]:
+                cases.append(("xexpr", "(call (var %s) %s)" % (v, fn)))
         for z in [0, 7, -7, 12345, 9223372036854775807]:
             r = self.ival(z)
             for fn in ["abs", "str", "float", "len", "decimal"]:
@@ -2215,7 +2401,8 @@ class C12(Prop):
             if c < 0.8:
                 return rng.choice(["(nil)", "(nilptr int)", "(nilptr str)"]), [("", "")], True
             if c < 0.9:
-                return rng.choice(["(chan)", "(func)", "(complex)", "(array2)"]), [], False
+                # an unsupported kind stays unsupported when its value happens to be nil (an unset callback or channel field)
+                return rng.choice(["(chan)", "(func)", "(complex)", "(array2)", "(nilchan)", "(nilfunc)"]), [], False
             return "(ptr (int 5))", [("", "5")], True
         if k < 0.5:
             inner, paths, ok = self.gen(rng, d - 1)
@@ -2279,6 +2466,24 @@ class C12(Prop):
                     cons = ["out:0:" + hx(t), "nopanic"]
                 lines.append(tree_case("C12:%d" % idx, [], [op_evalstr(src, data)], cons))
                 idx += 1
+        # one access expression evaluated on values of different Go shapes: a struct (field through its lower-cased first
+        # letter), a map with the literal key, a pointer to a struct - in one loop, in every order, and over renders of one
+        # loaded template
+        st = lambda n, a: "(struct (Name (str %s)) (Age (int %d)))" % (hx(n), a)
+        mp = lambda n, a: "(map (%s (str %s)) (%s (int %d)))" % (hx("name"), hx(n), hx("age"), a)
+        people = [(st("Ann", 30), "Ann:30;"), (mp("Bob", 41), "Bob:41;"), ("(ptr %s)" % st("Cid", 52), "Cid:52;"), (mp("Dee", 7), "Dee:7;")]
+        for perm in itertools.permutations(range(4), 3):
+            items = [people[i] for i in perm]
+            data = "((%s (slice %s)))" % (hx("v"), " ".join(x for x, _ in items))
+            lines.append(tree_case("C12:h%d" % idx, [], [op_evalstr("@each(a in v){{ a.name }}:{{ a.age }};@end", data)],
+                                   ["out:0:" + hx("".join(t for _, t in items)), "nopanic"]))
+            idx += 1
+            files = [("tpl/card.tw", "file", "<b>{{ author.name }}</b>({{ author.age }})")]
+            ops = [op_new("tpl", ".tw")] + [op_string("card", "((%s %s))" % (hx("author"), x)) for x, _ in items] + \
+                  [op_string("card", "((%s %s))" % (hx("author"), items[0][0]))]
+            cons = ["ok:0", "nopanic"] + ["out:%d:%s" % (j + 1, hx("<b>%s</b>(%s)" % tuple(t[:-1].split(":")))) for j, (_, t) in enumerate(items + [items[0]])]
+            lines.append(tree_case("C12:h%d" % idx, files, ops, cons))
+            idx += 1
         return lines, {"exhaustive": False, "distribution": {"values": n, "path_cases": idx}}
 
     def post_check(self, results):
